@@ -1,3 +1,4 @@
+//go:build linux
 // +build linux
 
 // Copyright 2016-2019 DutchSec (https://dutchsec.com/)
@@ -16,6 +17,7 @@
 package canary
 
 import (
+	"fmt"
 	"math/rand"
 	"net"
 	"sync"
@@ -109,7 +111,7 @@ func (s *State) close() {
 type StateTable [65535]*State
 
 // Add adds the state into the table.
-func (st *StateTable) Add(state *State) {
+func (st *StateTable) Add(state *State) error {
 	for i := range *st {
 		if (*st)[i] == nil {
 			// slot not taken
@@ -120,7 +122,7 @@ func (st *StateTable) Add(state *State) {
 		}
 
 		(*st)[i] = state
-		return
+		return nil
 	}
 
 	now := time.Now()
@@ -133,12 +135,12 @@ func (st *StateTable) Add(state *State) {
 		}
 
 		(*st)[i] = state
-		return
+		return nil
 	}
 
 	// we don't have enough space in the state table, and
 	// there are no inactive entries
-	panic("Statetable full")
+	return fmt.Errorf("Statetable full")
 }
 
 // Get will return the state for the ip, port combination
